@@ -31,6 +31,10 @@ def corpus():
         # KEEP_LAST 2, one instance, late TRANSIENT_LOCAL reader, lossy catch-up
         parse_line(PRE % (1344, 1, 1, 2) + " ; w 0 1 10 1 ; w 0 1 10 2 ; w 0 1 10 3 ; R 0 1 rel=1 dur=1 ; netm ; ha 0 ; q ; dr 1 ; "
                    "adv 250000000 ; pu ; adv 250000000 ; pu ; hp ; ha 0 ; t 0 0 ; q"),
+        # regression for C04-besteffort-hole-skips-sample (repaired by d974049): KEEP_LAST 1, keys 1,2,2 -> held {1,3};
+        # a late BEST_EFFORT TRANSIENT_LOCAL reader is sent DATA(1), GAP(2) AND DATA(3)
+        parse_line(PRE % (1344, 1, 1, 1) + " ; w 0 1 10 11 ; w 0 2 10 22 ; w 0 2 10 33 ; R 0 1 rel=0 dur=1 ; netm ; q ; pu ; "
+                   "t 0 0 ; w 0 1 10 44 ; q ; pu ; t 0 0 ; q"),
     ]
 
 
